@@ -7,9 +7,13 @@ VARIABLES hist, done
 Depth == atoi(IOEnv.GEN_DEPTH)
 Classes == {m.cls : m \in WriteMenu}
 Rep(c) == CHOOSE m \in WriteMenu : m.cls = c /\ m.ws[1].v # <<>>
-GSetValues == \E c \in Classes : SetValues(Rep(c).ws) /\ hist' = Append(hist, [a |-> "SetValues", cls |-> c, seal |-> FALSE])
+\* every step also records the spec's own successor state: a generated behaviour doubles as a trace that the trace form must accept
+\* (the canary of the check does not depend on SPSDK)
+GSetValues == \E c \in Classes : /\ SetValues(Rep(c).ws)
+                                  /\ hist' = Append(hist, [a |-> "SetValues", cls |-> c, seal |-> FALSE, w |-> Rep(c).ws, post |-> bits', size |-> 0])
 GOther == /\ (NewObject \/ Template \/ GetConfig \/ LoadConfig \/ DoExport \/ Parse)
-          /\ hist' = Append(hist, [a |-> act'.a, cls |-> "", seal |-> (act'.a = "Export" /\ act'.seal)])
+          /\ hist' = Append(hist, [a |-> act'.a, cls |-> "", seal |-> (act'.a = "Export" /\ act'.seal), w |-> <<>>,
+                                    post |-> IF act'.a = "Export" THEN bin'.b ELSE bits', size |-> ExpSize(L, bits')])
 GInit == Init /\ hist = <<>> /\ done = FALSE /\ steps = 0
 GNext == \/ Len(hist) < Depth /\ (GSetValues \/ GOther) /\ UNCHANGED <<done, steps>>
          \/ Len(hist) = Depth /\ ~done /\ done' = TRUE /\ PrintT(ToJson([lay |-> lay, hist |-> hist])) /\ UNCHANGED <<vars, hist, steps>>
